@@ -27,7 +27,7 @@ MODELLED = {
                         "mpi_abs", "mpi_mul", "mpi_square", "mpi_div", "mpi_sqrt", "mpi_pow_int", "mpci_add", "mpci_sub", "mpci_neg",
                         "mpci_pos", "mpci_mul", "mpci_square", "mpci_div", "mpci_pow_int",
                         "_mpi_outward", "mpi_exp", "mpi_log", "mpi_pow", "cos_sin_quadrant", "mpi_cos_sin", "mpi_tan", "mpi_cot",
-                        "mpi_cosh_sinh", "mpci_exp", "mpci_cos", "mpci_sin", "mpci_abs"],
+                        "mpi_cosh_sinh", "mpci_exp", "mpci_cos", "mpci_sin", "mpci_abs", "mpi_atan2", "mpci_arg"],
     "libmp/libintmath.py": ["ifac", "python_bitcount", "python_trailing", "isqrt_small_python", "isqrt_fast_python", "sqrtrem_python", "giant_steps"],
 }
 
